@@ -397,6 +397,10 @@ class Model:
                 q = f"{cls.qualname}.{e.id}"
                 if q in self.classes:
                     return q
+                # a sibling defined in the body of the enclosing class (ccitt: class EOFB(CCITTException) inside CCITTG4Parser)
+                outer = cls.qualname.rsplit(".", 1)[0]
+                if outer in self.classes and f"{outer}.{e.id}" in self.classes:
+                    return f"{outer}.{e.id}"
             r = self.resolve_name(m, e.id, _depth)
             if r:
                 return r
